@@ -197,6 +197,14 @@ def gen():
         raise TranslateError("updateOperatorToken: expected 7 ambiguous symbols, found %d" % len(amb))
     if not re.search(r"if\s*\(!\(opType\s*&\s*operatorType::ambiguous\)\)\s*\{\s*return;", m.group(1)):
         raise TranslateError("updateOperatorToken: the non-ambiguous early return changed")
+    # getInitialExpression: a closing pair without its opening pair is reported (not popPair on the root scope)
+    m = re.search(r"void\s+expressionParser::getInitialExpression\(\)\s*\{(.*?)\n    \}", psrc, re.S)
+    if not m:
+        raise TranslateError("getInitialExpression not found")
+    gie = re.sub(r"\s+", " ", strip_comments(m.group(1)))
+    unmatched_is_error = "if (state.scopedStates.size() < 2) { state.hasError = true;" in gie
+    if not unmatched_is_error and "scopedStates.size()" in gie:
+        raise TranslateError("getInitialExpression: the unmatched-closer guard has an unknown shape")
     # ---- printers
     bsrc = read(LANG + "/expr/binaryOpNode.cpp")
     m = re.search(r"void\s+binaryOpNode::print\(printer\s*&pout\)\s*const\s*\{(.*?)\n    \}", bsrc, re.S)
@@ -365,6 +373,8 @@ def gen():
           "def operandThenBinary : Bool := %s" % ("true" if operand_then_binary else "false"),
           "/-- operatorIsLeftUnary: a closing pair after the operator ends the operand -/",
           "def pairEndEndsOperand : Bool := %s" % ("true" if pairend_ends_operand else "false"),
+          "/-- getInitialExpression reports a closing pair without its opening pair instead of popping the root scope -/",
+          "def unmatchedCloserIsError : Bool := %s" % ("true" if unmatched_is_error else "false"),
           "/-- the ) of a (type) cast counts as a prefix operator (operatorIsLeftUnary, pushPair) -/",
           "def castEndIsPrefix : Bool := %s" % ("true" if cast_end_prefix else "false"),
           "/-- applyFasterOperators: 0 = `?` `:` are ordinary level-16 operators; 1 = `?` keeps a pending `?`/`:` and `:` stops at its `?`;",
